@@ -64,6 +64,16 @@ def cigar_for(draw, path_span, max_runs=6, ops_alphabet="=XID"):
     if remaining > 0:
         op = "=" if last != "=" else "X"
         ops.append((remaining, op))
+    if draw(st.integers(0, 7)) == 0:
+        # a CIGAR need not be in run-length normal form: 30=20= is the same alignment as 50= and is reproduced as written
+        split = []
+        for n, op in ops:
+            if n >= 2 and draw(st.booleans()):
+                k_ = draw(st.integers(1, n - 1))
+                split += [(k_, op), (n - k_, op)]
+            else:
+                split.append((n, op))
+        ops = split
     cg = "".join("%d%s" % x for x in ops)
     qspan = sum(n for n, op in ops if op in "=XIM")
     matches = sum(n for n, op in ops if op == "=")
